@@ -1,0 +1,62 @@
+//go:build verif
+
+package tbtc
+
+import (
+	"crypto/ecdsa"
+
+	"github.com/keep-network/keep-core/pkg/chain"
+)
+
+// Verification hook (build tag verif): re-exports existing identifiers only.
+
+const (
+	VerifC22CoordinationFrequencyBlocks      = coordinationFrequencyBlocks
+	VerifC22CoordinationSafeBlockShift       = coordinationSafeBlockShift
+	VerifC22CoordinationHeartbeatProbability = coordinationHeartbeatProbability
+)
+
+// VerifC22Executor wraps a coordinationExecutor holding only the fields read
+// by getSeed, getLeader and getActionsChecklist.
+type VerifC22Executor struct {
+	ce *coordinationExecutor
+}
+
+func VerifC22NewExecutor(
+	c Chain,
+	walletPublicKey *ecdsa.PublicKey,
+	signingGroupOperators []chain.Address,
+) *VerifC22Executor {
+	return &VerifC22Executor{
+		ce: &coordinationExecutor{
+			chain: c,
+			coordinatedWallet: wallet{
+				publicKey:             walletPublicKey,
+				signingGroupOperators: signingGroupOperators,
+			},
+		},
+	}
+}
+
+func (v *VerifC22Executor) WalletPublicKeyHash() [20]byte {
+	return v.ce.walletPublicKeyHash()
+}
+
+func (v *VerifC22Executor) GetSeed(coordinationBlock uint64) ([32]byte, error) {
+	return v.ce.getSeed(coordinationBlock)
+}
+
+func (v *VerifC22Executor) GetLeader(seed [32]byte) chain.Address {
+	return v.ce.getLeader(seed)
+}
+
+func (v *VerifC22Executor) GetActionsChecklist(
+	windowIndex uint64,
+	seed [32]byte,
+) []WalletActionType {
+	return v.ce.getActionsChecklist(windowIndex, seed)
+}
+
+func VerifC22WindowIndex(coordinationBlock uint64) uint64 {
+	return newCoordinationWindow(coordinationBlock).index()
+}
